@@ -1,0 +1,25 @@
+//go:build verif
+// +build verif
+
+package gocql
+
+import "github.com/gocql/gocql/internal/streams"
+
+// Re-exports of internal/streams for the C08 verification harness (build tag "verif" only).
+
+// VerifC08Gen wraps the stream-id allocator used by Conn.
+type VerifC08Gen struct{ g *streams.IDGenerator }
+
+// VerifC08New is streams.New.
+func VerifC08New(protocol int) *VerifC08Gen { return &VerifC08Gen{streams.New(protocol)} }
+
+func (v *VerifC08Gen) GetStream() (int, bool) { return v.g.GetStream() }
+func (v *VerifC08Gen) Clear(stream int) bool  { return v.g.Clear(stream) }
+func (v *VerifC08Gen) Available() int         { return v.g.Available() }
+func (v *VerifC08Gen) NumStreams() int        { return v.g.NumStreams }
+
+// Snapshot returns (offset, inuse, words) of the allocator's shared memory.
+func (v *VerifC08Gen) Snapshot() (uint32, int32, []uint64) { return v.g.VerifSnapshot() }
+
+// VerifC08SetYield installs the yield hook of internal/streams (nil removes it).
+func VerifC08SetYield(f func(int)) { streams.SetVerifYield(f) }
